@@ -280,6 +280,11 @@ func c06NoApply(ch *c06Change, src string, tree *ref.Tree) (ok bool, why string)
 		if len(res.Sites) == 0 && res.Optional == 0 && res.Inadmissible == 0 && !res.Applies {
 			return true, "reference:no-site"
 		}
+		if len(res.Sites) == 0 && res.Optional == 0 && res.Inadmissible > 0 && !res.Applies && len(ch.Spec.ImportsPlus) == 0 && ch.Spec.PkgPlus == ch.Spec.PkgMinus {
+			// the '-' side occurs, but nowhere can the replacement be put:
+			// gopatch leaves such places alone, so nothing is applied
+			return true, "reference:only-inadmissible-sites"
+		}
 		return false, "reference:site"
 	}
 	return false, "unknown-kind"
